@@ -70,6 +70,21 @@ def make_reactor():
         def iterate(self, delay=0):
             self.advance(delay)
 
+        def advance(self, amount):
+            """Like task.Clock.advance, but an exception raised by a delayed call is logged instead
+            of escaping - that is what the real reactor's runUntilCurrent does."""
+            from twisted.python import log as tlog
+            self.rightNow += amount
+            self._sortCalls()
+            while self.calls and self.calls[0].getTime() <= self.seconds():
+                call = self.calls.pop(0)
+                call.called = 1
+                try:
+                    call.func(*call.args, **call.kw)
+                except BaseException:  # noqa - the real reactor logs and carries on
+                    tlog.err()
+                self._sortCalls()
+
         def getDelayedCalls(self):
             return list(super().getDelayedCalls())
 
